@@ -60,6 +60,40 @@ async def one_inmemory(m, nror, outcomes):
     if r is None: return None
     return ('err', int(str(r.error).split()[-1])) if r.is_err else ('ok', r.return_value)
 
+class EmptyAggregate(Exception):          # a legal FALSY exception (`if exc:` is not `if exc is not None:`)
+    def __len__(self): return len(self.args)
+
+async def history(kind):
+    """histories the per-message grid does not contain: (falsy) a task failing with a falsy exception; (acks) an acknowledging broker: every
+    attempt - re-sent ones included - must be acknowledged once, or an at-least-once broker redelivers it and the task runs again; (two) two
+    messages of one task with DIFFERENT per-call labels through the same middleware instance: each retry carries its own message's labels only"""
+    from taskiq import InMemoryBroker, SimpleRetryMiddleware, AckableMessage, TaskiqMiddleware
+    from taskiq.abc.broker import AsyncBroker
+    AsyncBroker.global_task_registry = {}
+    acks = []; kicked = []; runs = []; seen = []
+    class B(InMemoryBroker):
+        async def kick(self, message):
+            i = len(kicked); kicked.append(message.task_id)
+            await self.receiver.callback(AckableMessage(data=message.message, ack=lambda i=i: acks.append(i)))
+    b = B(); b.add_middlewares(SimpleRetryMiddleware(default_retry_count=3))
+    class Spy(TaskiqMiddleware):
+        def pre_execute(self, message): seen.append((message.task_id, {k: v for k, v in message.labels.items() if k in ('tenant', 'region')})); return message
+    b.add_middlewares(Spy())
+    async def t(who):
+        runs.append(who)
+        if runs.count(who) == 1: raise (EmptyAggregate() if kind == 'falsy' else ValueError("first attempt"))
+        return who
+    task = b.register_task(t, task_name='t', retry_on_error=True)
+    await task.kicker().with_task_id('id-a').with_labels(tenant='a').kiq('a')
+    if kind == 'two': await task.kicker().with_task_id('id-b').with_labels(region='b').kiq('b')
+    pr = []
+    if kind == 'falsy' and runs != ['a', 'a']: pr.append(f"C11: a retry-enabled task whose first attempt failed with a falsy exception (an aggregate error raised with no sub-errors) ran {len(runs)} time(s), expected 2")
+    if kind == 'acks' and sorted(acks) != list(range(len(kicked))): pr.append(f"C11: {len(kicked)} attempts were delivered by an acknowledging broker, acknowledged (by delivery index): {sorted(acks)} - an attempt that is never acknowledged is redelivered by an at-least-once broker and runs again, beyond max_retries")
+    if kind == 'two':
+        want = [('id-a', {'tenant': 'a'}), ('id-a', {'tenant': 'a'}), ('id-b', {'region': 'b'}), ('id-b', {'region': 'b'})]
+        if seen != want: pr.append(f"C11: two messages of one task with different per-call labels, each failing once: attempts ran as (task id, user labels) {seen}, expected {want}")
+    return pr
+
 def expected(m, enabled, outcomes):
     n = 0
     while True:
@@ -85,6 +119,9 @@ def run(sc):
                         if len(runs) == want_n and stored != want_stored: pr.append(f"C11: stored results {stored}, expected {want_stored} (no_result_on_retry={nror})")
                         if nror and len(runs) == want_n and len(stored) > len(want_stored): pr.append(f"C07: {len(stored)} results were stored although only the final attempt has an outcome to store (re-sent attempts signal no-result): {stored}")
                         if pr and len(fails) < 40: fails.append({'key': f"m={m}/{m_as_label}/{roe}/{nror}/{outcomes[:3]}", 'failed_clauses': pr})
+    for kind in ('falsy', 'acks', 'two'):
+        pr = asyncio.run(history(kind)); n += 1
+        if pr: fails.append({'key': 'history/' + kind, 'failed_clauses': pr + ([c.replace('C11:', 'C09:', 1) for c in pr] if kind == 'two' else [])})
     # the same through the REAL in-memory result backend: what a client reads back under the task id is the final attempt's outcome
     for nror in (True, False):
         for outcomes, want in ((['fail', 'ok'], ('ok', 2)), (['fail', 'fail', 'ok'], ('ok', 3)), (['fail'] * 8, ('err', 3))):
